@@ -201,8 +201,7 @@ func init() {
 			"Go keywords / predeclared names as identifiers are not spellable over the alphabet and are unspecified",
 		},
 		BudgetQuick: 280 * time.Second, BudgetThorough: 1700 * time.Second,
-		Prepare:     PrepareUniverse,
-		CaseTimeout: 900 * time.Second,
+		Prepare: PrepareUniverse,
 		Run: func(w *W) {
 			base, fields, err := w.TC(false).ContainerMethods()
 			if err != nil {
